@@ -8,14 +8,14 @@ import shutil
 from harness import aggfam, core, gen
 
 RULE = ("paired get_estimates runs on one synthetic election (outlier models ON, all unit categories) in which ONE unit's input counts are replaced: a unit "
-        "below the reporting threshold (counts changed, and expected-vote percentage changed but kept below), a blocklisted unit (reporting or not), a "
+        "below the reporting threshold (counts changed, and expected-vote percentage changed but kept below), a blocklisted unit (reporting or not), a reporting unit of a blocklisted state, a "
         "zero-baseline unit, an unexpected unit; all three estimators. Compared bit for bit: the arguments of every solver fit (design matrix, targets, "
         "weights -- captured by wrapping the quantile / OLS solvers), the unit rows of every other unit, and every aggregate row of groups that do not "
         "contain the perturbed unit. Plus HistoricalModelClient._format_historical_current_data on a local historical file with the results of units "
         "below the threshold changed. distinct = (estimator, kind of perturbed unit, office); non-trivial = both runs completed and the perturbed unit "
         "exists in the unit table")
 
-KINDS = ["partial-count", "partial-pev", "blocklisted-reporting", "blocklisted-partial", "zero-baseline", "unexpected"]
+KINDS = ["partial-count", "partial-pev", "blocklisted-reporting", "blocklisted-partial", "zero-baseline", "unexpected", "state-blocklisted"]
 
 
 def pick_and_perturb(rng, case, kind):
@@ -45,6 +45,18 @@ def pick_and_perturb(rng, case, kind):
             cands.append(f)
         if kind == "unexpected" and b is None:
             cands.append(f)
+    if kind == "state-blocklisted":
+        # a whole state on the postal-code blocklist (both runs); one of its reporting units changes its counts
+        if len(c2["states"]) < 2:
+            return None
+        st = c2["states"][-1]
+        mp["postal_code_blocklist"] = [st]
+        case["params"]["model_parameters"]["postal_code_blocklist"] = [st]
+        pool = [f for f in feed if f["postal_code"] == st and f["geographic_unit_fips"] in base and base[f["geographic_unit_fips"]]["baseline_turnout"] != 0
+                and f["percent_expected_vote"] >= thr]
+        if not pool:
+            return None
+        cands = [rng.choice(pool)]
     if kind.startswith("blocklisted"):
         want_rep = kind == "blocklisted-reporting"
         pool = [f for f in feed if f["geographic_unit_fips"] in base and base[f["geographic_unit_fips"]]["baseline_turnout"] != 0
@@ -102,6 +114,8 @@ def worker(job):
                             aggregates=["postal_code", "county_classification", "county_fips", "unit"])
         kind = "partial-count"
         job = (seed, pi, "partial-count-large")
+    elif kind == "state-blocklisted":
+        case = gen.gen_case(rng, pi_method=pi, n_unexpected=1, avoid_boot_nan_key=True, n_states=rng.choice([2, 3]), n_units=rng.randint(90, 140), frac_reporting=0.7)
     else:
         case = gen.gen_case(rng, pi_method=pi, n_unexpected=2, avoid_boot_nan_key=True)
     if pi == "bootstrap" and ("county_classification" in case["params"]["aggregates"] or (case["office"] == "H" and "district" not in case["params"]["aggregates"])):
